@@ -894,3 +894,7 @@ class MaxResult_(tuple):
 
 TM["topk"] = _topk
 TF["topk"] = _topk
+
+TF["Size"] = lambda x: tuple(x)
+
+TM["numpy"] = lambda t: t   # .numpy(): same values and dtype (A11)
